@@ -306,7 +306,10 @@ def check_mapping_root(case):
     T, N = case["T"], case["N"]
     expect = RV.root_update(T, N)
     o = guarded("verify_root", A.verify_root, (copy.deepcopy(T), copy.deepcopy(N)))
-    if expect.kind == "reject" and o != "accept" and o not in expect.classes:
+    if expect.kind == "reject" and o == "accept":
+        raise Violation("verify_root returned normally although the reference rejects (%s): nothing was reported, the documented class is %s"
+                        % (expect.why, sorted(expect.classes)), bucket="rejection not reported verify_root")
+    if expect.kind == "reject" and o not in expect.classes:
         raise Violation("verify_root reported %s where the documented class is %s (%s)" % (o, sorted(expect.classes), expect.why),
                         bucket="wrong error class verify_root %s" % o)
     return {"nontrivial": expect.kind == "reject", "labels": ["out=" + o, "flaw=" + case["flaw"]]}
@@ -316,7 +319,10 @@ def check_mapping_delegation(case):
     expect = RV.delegation(case["role"], case["U"], case["T"], case["gpg"])
     o = guarded("verify_delegation", A.verify_delegation, (case["role"], copy.deepcopy(case["U"]), copy.deepcopy(case["T"])),
                 {"gpg": case["gpg"]})
-    if expect.kind == "reject" and o != "accept" and o not in expect.classes:
+    if expect.kind == "reject" and o == "accept":
+        raise Violation("verify_delegation returned normally although the reference rejects (%s): nothing was reported, the documented class is %s"
+                        % (expect.why, sorted(expect.classes)), bucket="rejection not reported verify_delegation")
+    if expect.kind == "reject" and o not in expect.classes:
         raise Violation("verify_delegation reported %s where the documented class is %s (%s)" % (o, sorted(expect.classes), expect.why),
                         bucket="wrong error class verify_delegation %s" % o)
     return {"nontrivial": expect.kind == "reject", "labels": ["out=" + o, "ask=" + case["ask_kind"]]}
@@ -326,7 +332,10 @@ def check_mapping_signable(case):
     env = GE.to_envelope(case)
     expect = RV.signable(env, case["authorized"], case["threshold"], case["gpg"])
     o = guarded("verify_signable", A.verify_signable, (env, case["authorized"], case["threshold"]), {"gpg": case["gpg"]})
-    if expect.kind == "reject" and o != "accept" and o not in expect.classes:
+    if expect.kind == "reject" and o == "accept":
+        raise Violation("verify_signable returned normally although the reference rejects: nothing was reported, the documented class is %s"
+                        % sorted(expect.classes), bucket="rejection not reported verify_signable")
+    if expect.kind == "reject" and o not in expect.classes:
         raise Violation("verify_signable reported %s where the documented class is %s" % (o, sorted(expect.classes)),
                         bucket="wrong error class verify_signable %s" % o)
     return {"nontrivial": expect.kind == "reject", "labels": ["out=" + o]}
@@ -342,7 +351,23 @@ def check_fuzz(case):
 _values = st.one_of(GP.scalars, GP.scalars, GP.python_values, G.json_values(8))
 _muts = st.lists(st.fixed_dictionaries({"p": st.integers(0, 10 ** 6), "o": st.integers(0, 10 ** 6)}), min_size=1, max_size=2)
 
+def _interrupted_sweep_cases():
+    from props import C12
+    return C12._sweep_cases().map(lambda c: dict(c, kind=c["kind"] if c["kind"] != "valid" else "unauthorized"))
+
+
+def check_interrupted_sweep(case):
+    """fail-closed under faults: an exception of any class (OSError from print on a dead pipe, KeyboardInterrupt, MemoryError,
+    KeyError ...) raised at any line or C call inside a verification of a must-reject envelope never ends in acceptance, and
+    neither does a standard output that fails"""
+    from props import C12
+    return C12.check_fault_sweep(case)
+
+
 UNITS = [
+    Unit("interrupted_sweep", check_interrupted_sweep, strategy=_interrupted_sweep_cases, quick=18, thorough=500, shards_quick=3,
+         doc="must-reject envelopes: every line event and every C-level call of one verification interrupted once by exceptions of "
+             "rotating classes, and standard output failing in five ways: never an acceptance, and the retry is rejected too"),
     Unit("reference_calls", check_sanity, enumerate=enum_sanity, exhaustive=True, shards_quick=1, shards_thorough=1,
          doc="the eight reference calls (valid argument sets) return"),
     Unit("validators", check_validators, strategy=lambda: st.builds(lambda v: {"v": v}, _values), quick=2500, thorough=80000,
